@@ -190,6 +190,8 @@ def gen_case(seed, tier):
                 script.append(["ctx", fn, x, rng.randrange(2)])
             elif rich and r < 0.45:
                 script.append(["ign", fn, x])
+            elif rich and r < 0.55:
+                script.append(["par", fn, x])     # the same call through a partial application of the function
             else:
                 script.append(["call", fn, x])
         threads["T%d" % t] = script
@@ -246,6 +248,8 @@ def cases(tier, seed):
         # a batch whose pre-check sees a call that another thread is just memoizing, and whose other elements then push
         # that entry out of the small cache
         ("fs+cache", "cold", {"T0": [["call", "f", 2]], "T1": [["batch", "f", [0, 1, 3, 2]]]}),
+        # one call made plainly and through a partial application
+        ("fs", "cold", {"T0": [["call", "mid", 1]], "T1": [["par", "mid", 1]]}),
     ]
     # a call in flight while more than a thousand other distinct calls pass through the runner; the second caller arrives
     # at the hint placed after the fan-out (whoever starts first)
@@ -271,6 +275,8 @@ def _run_script(mod, script):
                 res.append(["ok", getattr(mod, op[1]).with_context_args({"k": op[3]})(op[2])])
             elif op[0] == "ign":
                 res.append(["ok", getattr(mod, op[1]).ignore_result()(op[2])])
+            elif op[0] == "par":
+                res.append(["ok", getattr(mod, op[1]).partial(op[2])()])
             else:
                 r = getattr(mod, op[1]).call_batch([{"x": x} for x in op[2]], raise_first_exception=False)
                 res.append(["ok", r])
